@@ -256,6 +256,30 @@ struct OpSched : xv::Scheduler {  // operations run one at a time (no preemption
   uint64_t choice(uint64_t n) override { return n ? next() % n : 0; }
 };
 
+// phases: (tid, steps, ops): run tid until it has executed `steps` steps in this phase (steps >= 0) or has reached
+// its `ops`-th operation boundary in this phase (ops >= 0); -1 = unlimited. Then the next phase. Afterwards non-preemptive lowest id.
+struct PhaseSched : xv::Scheduler {
+  struct Ph { int tid; long steps; long ops; };
+  std::vector<Ph> ph; size_t cur = 0; long used = 0, bounds = 0; bool entered = false;
+  int pick(long, int curt, uint32_t en) override {
+    while (cur < ph.size()) {
+      const Ph& p = ph[cur];
+      bool alive = (en & (1u << p.tid)) != 0;
+      if (alive) {
+        bool stop = false;
+        if (p.steps >= 0 && used >= p.steps) stop = true;
+        if (p.ops >= 0 && xv::at_boundary(p.tid) && nb >= p.ops) stop = true;
+        if (!stop) { if (xv::at_boundary(p.tid)) nb++; used++; entered = true; return p.tid; }
+      }
+      cur++; used = 0; bounds = 0; nb = 0; entered = false;
+    }
+    if (curt > 0 && (en & (1u << curt))) return curt;
+    for (int i = 1; i < 32; i++) if (en & (1u << i)) return i;
+    return 0;
+  }
+  long nb = 0;
+};
+
 inline int count_preemptions(const std::vector<int>& s, const std::vector<uint32_t>& en) {
   int p = 0; for (size_t i = 1; i < s.size(); i++) if (s[i] != s[i - 1] && (en[i] & (1u << s[i - 1]))) p++; return p;
 }
@@ -339,6 +363,23 @@ inline int main_driver(int argc, char** argv, std::function<Adapter*()> mk) {
         if (handle()) { report(o.strategy.c_str()); return 1; }
       }
       report(o.strategy.c_str());
+      return found_kinds.empty() ? 0 : 1;
+    }
+    if (o.strategy == "phase3") {
+      // three-party races: thread a runs `ia` whole operations (it then holds whatever its guards hold), thread c runs k steps,
+      // thread b runs to completion (incl. thread exit), then c, then a complete. All ordered triples of distinct threads.
+      for (int a = 1; a <= nthreads; a++) for (int b = 1; b <= nthreads; b++) for (int cc = 1; cc <= nthreads; cc++) {
+        if (a == b || b == cc || a == cc) continue;
+        long nops_a = (long)c.prog[a - 1].size();
+        for (long ia = 0; ia <= nops_a; ia++) {
+          for (long k = 0; k < o.n; k++) {
+            run_child(mk, c, o, [&]() -> xv::Scheduler* { auto* p = new PhaseSched(); p->ph = {{a, -1, ia}, {cc, k, -1}, {b, -1, -1}, {cc, -1, -1}, {a, -1, -1}}; return p; }, sh);
+            if (handle()) { report("phase3"); return 1; }
+            if (sh->nts > cc && sh->tsteps[cc] < k) break;
+          }
+        }
+      }
+      report("phase3");
       return found_kinds.empty() ? 0 : 1;
     }
     if (o.strategy == "prefix") {  // "thread A runs k steps, then B to completion, then the rest" for all A != B, k
